@@ -130,7 +130,7 @@ class C17:
         packs = [e for e in o["log"] if e["prog"] == "pack" and e["argv"][:1] == [list(b"build")]]
         want = sorted(FIXTURE_LISTING + [])
         if c["pre"]:      # what the preprocessor leaves in the private copy: a new file, app.txt rewritten, sub/inner.txt extended
-            want = sorted([["PREPROCESSED", [120]], ["app.txt", list(b"changed")], ["sub/", []], ["sub/inner.txt", list(b"inner+more")]])
+            want = sorted([["PREPROCESSED", [120]], ["app.txt", list(b"changed")], ["link.txt", list(b"app")], ["sub/", []], ["sub/inner.txt", list(b"inner+more")]])
         copy_ok = len(packs) == 1 and packs[0].get("path_listing") == want
         untouched = len(o["fixtures"]) == 1 and o["fixtures"][0]["listing"] == FIXTURE_LISTING and o["status"] == "done" and not leftover
         return "(mkCase %s %s %s %s %s %s %s %s %s %s %s)" % (
